@@ -636,7 +636,8 @@ def ops_strategy(nb: int):
     return weighted((3, generic), (1, push))
 
 
-CONFIRMS = st.lists(st.sampled_from([0, 0, 0, 0.2, 5, 29, None, 'dbl']), min_size=0, max_size=4)
+CONFIRMS = st.sampled_from([[0], [0], [0.2], [5], [29], [None], ['dbl'], [0, 5], [29, 0], [None, 0], [0, 'dbl', 5],
+                            [0.2, 5, None], [5, 5, 0], ['dbl', 29], [0, 0, None, 5]])
 DELAYS = st.sampled_from([[], [], [], [0, 1], [5, 0, 50]])
 
 
